@@ -321,6 +321,13 @@ func (g *Group) Search(prefix string, cmp SearchFunc) (*GroupReader, bool, error
 		}
 		foundIndex, line, err := scanNext(r, prefix)
 		r.Close()
+		if err == io.EOF && curIndex > minIndex {
+			// No marker line from this file to the end of the group (e.g. the head
+			// file after a rotation holds no marker yet): the line searched for can
+			// only be in an earlier file.
+			maxIndex = curIndex - 1
+			continue
+		}
 		if err != nil {
 			return nil, false, err
 		}
